@@ -557,6 +557,7 @@ class MacroProgram(ElementProgram):
         )
 
         # metal:fill-slot
+        fill_slot = None
         try:
             clause = ns[METAL, 'fill-slot']
         except KeyError:
@@ -579,7 +580,8 @@ class MacroProgram(ElementProgram):
                 )
 
             slots = self._use_macro[index]
-            slots.append(nodes.FillSlot(clause, slot))
+            fill_slot = nodes.FillSlot(clause, slot)
+            slots.append(fill_slot)
 
         # metal:define-macro
         try:
@@ -668,6 +670,11 @@ class MacroProgram(ElementProgram):
 
         if use_macro:
             self._use_macro.pop()
+
+        if fill_slot is not None:
+            # The filler is rendered where the slot is: its error
+            # handler goes with it
+            fill_slot.node = wrap(fill_slot.node, ON_ERROR)
 
         return wrap(
             slot,
